@@ -888,6 +888,7 @@ RELOAD:
 	s.socket.Close()
 	vp("rd.sock", s, 0, 0)
 	if !s.redialForClient(oldConn) {
+		vp("rd.redialfailed", s, 0, 0)
 		s.changeStatus(statusPassiveClosed)
 		vp("rd.closed", s, 0, 0)
 		s.notifyClosed()
